@@ -37,12 +37,30 @@ func clRefCountWrites(c *Ctx) {
 			incs++
 			args := callOf(w.in).Args
 			old := strip(args[1])
-			ld, ok := old.(*ssa.Call)
-			fromLoad := false
-			if ok {
-				k, on := atomicOnField(ld, fRef)
-				fromLoad = on && k == "Load"
+			// the expected value is an atomic load of the field (possibly carried by a loop variable
+			// all of whose definitions are such loads)
+			var isLoadOfRef func(v ssa.Value, seen map[ssa.Value]bool) bool
+			isLoadOfRef = func(v ssa.Value, seen map[ssa.Value]bool) bool {
+				v = strip(v)
+				if seen[v] {
+					return true
+				}
+				seen[v] = true
+				switch x := v.(type) {
+				case *ssa.Call:
+					k, on := atomicOnField(x, fRef)
+					return on && k == "Load"
+				case *ssa.Phi:
+					for _, e := range x.Edges {
+						if !isLoadOfRef(e, seen) {
+							return false
+						}
+					}
+					return len(x.Edges) > 0
+				}
+				return false
 			}
+			fromLoad := isLoadOfRef(old, map[ssa.Value]bool{})
 			c.Check(fromLoad, w.fn, w.in, cnt.in(w.fn, "CAS expects the atomically loaded count"), "the expected value of the increment CAS is not an atomic load of the same field")
 			plus1 := false
 			if b, ok := strip(args[2]).(*ssa.BinOp); ok && b.Op == token.ADD {
@@ -79,14 +97,29 @@ func clRefCountWrites(c *Ctx) {
 			})
 			c.Check(won, open, in, "Open returns true only after its CAS succeeded", "Open reports success without having taken a reference")
 		} else {
-			zero := fi.guardedByCmp(in, token.EQL, func(v ssa.Value) bool {
-				call, ok := strip(v).(*ssa.Call)
-				if !ok {
-					return false
+			var loadOrPhi func(v ssa.Value, seen map[ssa.Value]bool) bool
+			loadOrPhi = func(v ssa.Value, seen map[ssa.Value]bool) bool {
+				v = strip(v)
+				if seen[v] {
+					return true
 				}
-				k, on := atomicOnField(call, fRef)
-				return on && k == "Load"
-			}, isConstInt(0)) || fi.guardedByCmp(in, token.LEQ, anyValue, isConstInt(0))
+				seen[v] = true
+				switch x := v.(type) {
+				case *ssa.Call:
+					k, on := atomicOnField(x, fRef)
+					return on && k == "Load"
+				case *ssa.Phi:
+					for _, e := range x.Edges {
+						if !loadOrPhi(e, seen) {
+							return false
+						}
+					}
+					return len(x.Edges) > 0
+				}
+				return false
+			}
+			zero := fi.guardedByCmp(in, token.EQL, func(v ssa.Value) bool { return loadOrPhi(v, map[ssa.Value]bool{}) }, isConstInt(0)) ||
+				fi.guardedByCmp(in, token.LEQ, func(v ssa.Value) bool { return loadOrPhi(v, map[ssa.Value]bool{}) }, isConstInt(0))
 			c.Check(zero, open, in, "Open returns false only on a zero count", "Open refuses a snapshot that is still referenced")
 		}
 	}
